@@ -410,6 +410,8 @@ func c01(r *Report, s *Sem) {
 
 	// ---- R6
 	c01TextForms(r, s, R6)
+	R10 := r.Rule("R10", "a text form never drops a field: for every return of Node/Identity/MediaType.String() the fields that do not flow into the returned text are known empty (or the whole value zero) on the edge taken — otherwise two different values share one text and parsing cannot give the value back", 7)
+	c01TextComplete(r, s, R10)
 	R7 := r.Rule("R7", "text-form parsers return only verbatim pieces of their input (split/slice of the parameter, or a sibling parser applied to such a piece): no call may transform characters between the text and the parsed value, since the printer writes the fields verbatim", 3)
 	checkVerbatimParsers(r, R7)
 	R8 := r.Rule("R8", "co-presence symmetry: when the encoder emits a wire member only together with another struct field being present, the decoder stores the corresponding field only when that other member is present on the wire", 10)
@@ -772,9 +774,14 @@ func separators(fn *ssa.Function) (printed, split map[string]bool) {
 					}
 				}
 			}
-		case f.Pkg.Pkg.Path() == "strings" && (f.Name() == "Split" || f.Name() == "SplitN"):
+		case f.Pkg.Pkg.Path() == "strings" && (f.Name() == "Split" || f.Name() == "SplitN" || f.Name() == "Cut" || f.Name() == "Index" || f.Name() == "LastIndex" || f.Name() == "SplitAfter" || f.Name() == "SplitAfterN"):
 			if cs, ok := constString(stripConv(c.Common().Args[1])); ok {
 				split[cs] = true
+			}
+		case f.Pkg.Pkg.Path() == "strings" && (f.Name() == "IndexByte" || f.Name() == "LastIndexByte" || f.Name() == "IndexRune"):
+			// the separator as a byte / rune constant
+			if k, ok := constInt(stripConv(c.Common().Args[1])); ok && k > 0 && k < 0x110000 {
+				split[string(rune(k))] = true
 			}
 		}
 	})
@@ -939,4 +946,238 @@ func isZeroValue(v ssa.Value) bool {
 		}
 	}
 	return false
+}
+
+// c01TextComplete (R10): a text form never silently drops a field. For every return of T.String() the fields of T that
+// do not flow into the returned string must be known empty on the edge taken: `x.F == ""`, `x.F == (F{})` or
+// `x == (T{})`. Otherwise two different values print the same text and the parser cannot give the value back.
+func c01TextComplete(r *Report, s *Sem, R string) {
+	p := r.P
+	for _, tn := range []string{"Node", "Identity", "MediaType"} {
+		fn := p.Method(tn, "String")
+		if fn == nil || len(fn.Params) == 0 {
+			r.Undecided(R, "anchor-unresolved:"+tn+".String", "-", "not found")
+			continue
+		}
+		recv := fn.Params[0]
+		st, ok := recv.Type().Underlying().(*types.Struct)
+		if pt, isPtr := recv.Type().Underlying().(*types.Pointer); isPtr {
+			st, ok = pt.Elem().Underlying().(*types.Struct)
+		}
+		if !ok {
+			r.Undecided(R, "type "+tn+" / struct receiver", p.pos(fn.Pos()), "receiver is not a struct")
+			continue
+		}
+		isRoot := func(v ssa.Value) bool {
+			v = stripConv(v)
+			if v == ssa.Value(recv) {
+				return true
+			}
+			if al, ok := v.(*ssa.Alloc); ok {
+				if sv := singleStore(al); sv != nil && stripConv(sv) == ssa.Value(recv) {
+					return true
+				}
+			}
+			if u, ok := v.(*ssa.UnOp); ok && u.Op == token.MUL {
+				if al, ok := u.X.(*ssa.Alloc); ok {
+					if sv := singleStore(al); sv != nil && stripConv(sv) == ssa.Value(recv) {
+						return true
+					}
+				}
+			}
+			return false
+		}
+		// first-level field index a value reads (−1: none, −2: the whole receiver)
+		var fieldOfVal func(v ssa.Value) int
+		fieldOfVal = func(v ssa.Value) int {
+			v = stripConv(v)
+			if isRoot(v) {
+				return -2
+			}
+			switch x := v.(type) {
+			case *ssa.UnOp:
+				if x.Op == token.MUL {
+					return fieldOfVal(x.X)
+				}
+			case *ssa.FieldAddr:
+				if isRoot(x.X) {
+					return x.Field
+				}
+				return fieldOfVal(x.X)
+			case *ssa.Field:
+				if isRoot(x.X) {
+					return x.Field
+				}
+				return fieldOfVal(x.X)
+			}
+			return -1
+		}
+		flows := func(v ssa.Value) map[int]bool {
+			used := map[int]bool{}
+			seen := map[ssa.Value]bool{}
+			var rec func(v ssa.Value, d int)
+			rec = func(v ssa.Value, d int) {
+				if v == nil || seen[v] || d > 30 {
+					return
+				}
+				seen[v] = true
+				if k := fieldOfVal(v); k >= 0 {
+					used[k] = true
+					return
+				} else if k == -2 {
+					for i := 0; i < st.NumFields(); i++ {
+						used[i] = true
+					}
+					return
+				}
+				switch x := v.(type) {
+				case *ssa.Phi:
+					// a phi of texts: only what flows on every edge is certainly there — intersect
+					var sets []map[int]bool
+					for _, e := range x.Edges {
+						sub := map[int]bool{}
+						saveUsed := used
+						used = sub
+						rec(e, d+1)
+						used = saveUsed
+						sets = append(sets, sub)
+					}
+					if len(sets) > 0 {
+						for k := range sets[0] {
+							all := true
+							for _, o := range sets[1:] {
+								if !o[k] {
+									all = false
+								}
+							}
+							if all {
+								used[k] = true
+							}
+						}
+					}
+				case *ssa.BinOp:
+					if x.Op == token.ADD {
+						rec(x.X, d+1)
+						rec(x.Y, d+1)
+					}
+				case *ssa.Call:
+					for _, a := range x.Call.Args {
+						rec(a, d+1)
+					}
+					if x.Call.IsInvoke() {
+						rec(x.Call.Value, d+1)
+					}
+				case *ssa.MakeInterface:
+					rec(x.X, d+1)
+				case *ssa.ChangeType:
+					rec(x.X, d+1)
+				case *ssa.Convert:
+					rec(x.X, d+1)
+				case *ssa.Extract:
+					rec(x.Tuple, d+1)
+				case *ssa.Slice:
+					if al, ok := x.X.(*ssa.Alloc); ok {
+						for _, ref := range *al.Referrers() {
+							if ia, ok := ref.(*ssa.IndexAddr); ok {
+								for _, r2 := range *ia.Referrers() {
+									if sto, ok := r2.(*ssa.Store); ok && sto.Addr == ssa.Value(ia) {
+										rec(sto.Val, d+1)
+									}
+								}
+							}
+						}
+					} else {
+						rec(x.X, d+1)
+					}
+				case *ssa.UnOp:
+					if x.Op == token.MUL {
+						if al, ok := x.X.(*ssa.Alloc); ok {
+							for _, ref := range *al.Referrers() {
+								if sto, ok := ref.(*ssa.Store); ok && sto.Addr == ssa.Value(al) {
+									rec(sto.Val, d+1)
+								}
+							}
+						}
+					}
+				}
+			}
+			rec(v, 0)
+			return used
+		}
+		isZero := func(v ssa.Value) bool {
+			c, ok := stripConv(v).(*ssa.Const)
+			if !ok {
+				return false
+			}
+			if c.Value == nil {
+				return true
+			}
+			cs, isS := constString(c)
+			return isS && cs == ""
+		}
+		groups := map[string][]retLeaf{}
+		var order []string
+		for _, rl := range returnLeaves(fn, 0) {
+			used := flows(rl.v)
+			var missing []string
+			for i := 0; i < st.NumFields(); i++ {
+				if !used[i] {
+					missing = append(missing, st.Field(i).Name())
+				}
+			}
+			key := strings.Join(missing, ",")
+			if _, ok := groups[key]; !ok {
+				order = append(order, key)
+			}
+			groups[key] = append(groups[key], rl)
+		}
+		sort.Strings(order)
+		for _, key := range order {
+			if key == "" {
+				r.Trivial(R, "func "+fnName(fn)+" / full text form", p.pos(fn.Pos()), true, "every field flows into the returned text")
+				continue
+			}
+			okAll, pos := true, p.pos(fn.Pos())
+			detail := ""
+			for _, rl := range groups[key] {
+				pos = p.instrPos(rl.in)
+				for _, fname := range strings.Split(key, ",") {
+					idx := -1
+					for i := 0; i < st.NumFields(); i++ {
+						if st.Field(i).Name() == fname {
+							idx = i
+						}
+					}
+					guarded := condGuardEdge(rl.b, rl.to, func(c Cond) bool {
+						if c.Op != token.EQL {
+							return false
+						}
+						x, y := c.X, c.Y
+						if isZero(x) {
+							x, y = y, x
+						}
+						if !isZero(y) {
+							return false
+						}
+						k := fieldOfVal(x)
+						if k == -2 {
+							_, isLoad := stripConv(x).(*ssa.UnOp)
+							return isLoad || stripConv(x) == ssa.Value(recv)
+						}
+						if k != idx {
+							return false
+						}
+						// the whole field, not a part of it
+						ap := pathOf(x)
+						return len(ap.Fields) <= 1 || ap.Last() == st.Field(idx)
+					})
+					if !guarded {
+						okAll = false
+						detail = "a return whose text does not contain " + fname + " is reachable with " + fname + " non-empty"
+					}
+				}
+			}
+			r.Check(R, "func "+fnName(fn)+" / text form without {"+key+"} only when empty", pos, okAll, detail)
+		}
+	}
 }
